@@ -69,6 +69,15 @@ CLAIMED.update({
         tech="deterministic simulation: real-chain reorg injection aimed at receiving blocks, revert/reconfirm oracle against chain truth"),
 })
 
+CLAIMED.update({
+    "C09": dict(cat="exploration", ref="DESIGN.md §3 C09",
+        text="Valid traffic of a seeded history (every slate state, with proofs and TTLs) is hit by byte-level channel/file faults at 16 real entry points (slate JSON, armored / binary / JSON slatepacks plain and encrypted to the wallet, addresses, payment-proof JSON, both JSON-RPC listeners incl. owner requests inside an honest encrypted envelope, slatepack files) and by a Byzantine peer that age-encrypts malformed plaintexts to the wallet's own address. A genuine panic (caught at the step boundary, signature = wallet call site even when the panic fires inside a dependency), more than 512 MB of heap growth in one decode, a hang (real-time watchdog + journal) or a changed wallet directory after a rejected input is a violation. Labelled partial scope: the inputs are faults of valid encodings and Byzantine ciphertexts, not all byte strings.",
+        tech="deterministic simulation: corrupting channel / torn file / Byzantine-ciphertext fault kinds on real traffic at every decoding entry point, panic+allocation+hang+state-digest oracles"),
+    "C10": dict(cat="exploration", ref="DESIGN.md §3 C10",
+        text="Network-fault reading of the property: every slatepack a sender packs for a drawn recipient set is delivered to each recipient (must yield the slate and sender), misdelivered to every other identity in the world and to a keyless reader (must not decode), inspected raw by an eavesdropper for the slate and sender address, corrupted in transit by character edits of the armor, and tampered with by an active attacker who flips bits of the age payload and recomputes the armor checksum (must be rejected or yield the same slate). Labelled partial scope: wrong keys are the other identities of the simulated world, not all keys.",
+        tech="deterministic simulation: misdelivery / eavesdropping / in-transit corruption and active tampering faults on slatepack traffic"),
+})
+
 NOT_YET = {
     "C08": "not applicable to this technique: encode/decode round-trips are pure functions of their input (no schedule, clock, fault, crash point or second party); deciding them needs structural input generation or proof, see DESIGN.md §4",
 }
